@@ -64,13 +64,22 @@ def port_run(arrivals, sequential):
     vlevels = []        # the virtual level right after each write's debit
     seq = []            # arrivals and writes in the order they happened, with the closure's own bits_in_bucket as each write found it
 
+    def bucket_cells():       # the closure of the @limit_duty_cycle wrapper, wherever in PortTransport it is applied
+        for fn in vars(tr.PortTransport).values():
+            while fn is not None:
+                if getattr(fn, "__closure__", None) and "bits_in_bucket" in fn.__code__.co_freevars:
+                    return dict(zip(fn.__code__.co_freevars, fn.__closure__))
+                fn = getattr(fn, "__wrapped__", None)
+        return None
+
     def bucket_level():
-        fn = tr.PortTransport.write_frame
-        return dict(zip(fn.__code__.co_freevars, fn.__closure__))["bits_in_bucket"].cell_contents
+        cells = bucket_cells()
+        return cells["bits_in_bucket"].cell_contents if cells else float("nan")
 
     def virtual_level():      # what the next top-up would compute, uncapped: bits_in_bucket + elapsed * FILL_RATE (the quantity the floor theorem bounds)
-        fn = tr.PortTransport.write_frame
-        cells = dict(zip(fn.__code__.co_freevars, fn.__closure__))
+        cells = bucket_cells()
+        if not cells:
+            return float("nan")
         return cells["bits_in_bucket"].cell_contents + RATE_BITS_S * (loop.time() - cells["last_time_bit_added"].cell_contents)
 
     class Sem(asyncio.BoundedSemaphore):
@@ -321,7 +330,9 @@ def run(ctx: Ctx) -> None:
         coq_k.append(f"ck {K} [" + "; ".join((f"A {k} {ticks(t)} {2 * x}" if a == "A" else f"CWr {k} {ticks(t)}") for a, k, t, x in port_run.seq) + "]")
         impl_k.append([(1, lvl * TPS) for a, k, t, lvl in port_run.seq if a == "W"])
         floor = min(port_run.vlevels)
-        if floor < -(K - 1) * MAX_FRAME_BITS - 1e-6:
+        if floor != floor:
+            ctx.obligation("correspondence:duty-cycle-closure-found", False, "correspondence", "no function of PortTransport carries the @limit_duty_cycle closure (bits_in_bucket)")
+        elif floor < -(K - 1) * MAX_FRAME_BITS - 1e-6:
             ctx.violation("bucket-overdrawn-beyond-pending-frames", f"the bucket level (as the next top-up would compute it) fell to {floor:.1f} bits with at most {K} calls pending at once (floor: -{K - 1} frames)",
                           {"pattern": pat, "arrivals": arr, "max_pending": K}, "schedule")
     # MQTT
